@@ -5,6 +5,7 @@ CONSTANTS
   BodilessByLine = FALSE
   ForgetCloseOnFault = FALSE
   StaleLengthOnRenderFault = FALSE
+  StatusStringAsIs = FALSE
   Tier = "full"
   Ifaces = {"wsgi", "wsgifw", "asgi"}
   Codes = {200, 204, 304, 100, 101, 404, 299}
@@ -22,5 +23,6 @@ INVARIANT LengthConsistent
 INVARIANT BodilessHaveNoBytes
 INVARIANT TypelessHaveNoFrameworkType
 INVARIANT OthersHaveType
+INVARIANT StatusLineWellFormed
 INVARIANT CloseExactlyOnceOnceBegun
 INVARIANT FaultFreeCompletes
